@@ -1,29 +1,77 @@
+# C03 - stream framing is independent of how the byte stream is split into reads.  Three groups:
+#   bytes   : the REAL readyRead lambda of XmppSocket::setSocket (byte -> text), reached through the real QObject::connect template
+#   text    : the REAL XmppSocket::processData as one inductive step over abstract token text (text -> events)
+#   restart : the REAL connected/encrypted lambdas leave nothing of the old stream behind
+import os, subprocess
 COMMON = ['m_pre.c', 'qt_core.c', 'qt_dom.c', 'm_common.c']
 def I(name, entry, **kw):
-    d = dict(name=name, entry=entry, unwind=8, timeout_s=240, mem_gb=4, cdefs={'C03_MAXBYTES': 4}); d.update(kw); return d
-TD = {'C03_MAXBYTES': 4, 'C03_TCAP': 34}
-TB = 'one read of arbitrary length at an arbitrary position of a stream window of [xml-decl] [ws] header [ws] (stanza [ws]){0..2} [close]'
+    d = dict(name=name, entry=entry, unwind=8, timeout_s=300, timeout_thorough_s=1500, mem_gb=4, cdefs={'C03_MAXBYTES': 4}); d.update(kw); return d
+BB = 'valid UTF-8 byte string B of <= %d bytes (no NUL, no U+FEFF), delivered in 3 reads cut at arbitrary byte positions k1 <= k2 (empty reads included)'
+TB = 'one read of arbitrary length at an arbitrary position of a stream window [xml-decl] [ws] header [ws] (stanza [ws]){0..%d} [close]; ids 8 bit, ws in {SP, LF}; every piece cut at every atom boundary'
+def text_group(name, nst, tcap, tiers):
+    td = {'C03_MAXBYTES': 4, 'C03_TCAP': tcap}
+    return dict(name=name, harness='h_text.cpp', tus=[], models=COMMON + ['m_text.c'], cxxdefs={'C03_STANZAS': nst},
+                instances=[I('step_%s%s' % (e, '' if nst == 2 else '_%dst' % nst), 'h_step_' + e, cdefs=td, tiers=tiers, bound=TB % nst)
+                           for e in ('complete_start', 'complete_mid', 'partial_start', 'partial_mid')])
+def bytes_group(name, nbytes, tiers):
+    cd = {'C03_MAXBYTES': nbytes}; sfx = '' if nbytes == 4 else '_%db' % nbytes
+    return dict(name=name, harness='h_bytes.cpp', tus=[], models=COMMON + ['m_bytes.c'], cxxdefs={'C03_NBYTES': nbytes},
+                instances=[
+                    I('utf8_split' + sfx, 'h_utf8_split', cdefs=cd, tiers=tiers, bound=BB % nbytes),
+                    I('utf8_boundary' + sfx, 'h_utf8_boundary', cdefs=cd, tiers=tiers, bound=(BB % nbytes) + ', cuts between characters only'),
+                ] + ([
+                    # demonstrations that only run while the corresponding key is listed in /verif/known_findings.txt
+                    I('utf8_split_in_char', 'h_utf8_split_in_char', cdefs=cd, tiers=tiers, known_finding='utf8_split_in_char', bound=BB % nbytes),
+                    I('utf8_feff', 'h_utf8_feff', cdefs=cd, tiers=tiers, known_finding='feff_at_read_start', bound='as utf8_split, U+FEFF allowed in B'),
+                ] if nbytes == 4 else []))
 SPEC = dict(
     property='C03',
     groups=[
-        dict(name='bytes', harness='h_bytes.cpp', tus=[], models=COMMON + ['m_bytes.c'], cxxdefs={'C03_NBYTES': 4},
-             instances=[
-                 I('utf8_split', 'h_utf8_split', bound='valid UTF-8 byte string <= 4 bytes, 3 reads at arbitrary byte positions'),
-                 I('utf8_boundary', 'h_utf8_boundary', bound='valid UTF-8 byte string <= 4 bytes, 3 reads cut between characters'),
-                 I('utf8_split_in_char', 'h_utf8_split_in_char', known_finding='utf8_split_in_char', bound='as utf8_split'),
-             ]),
-        dict(name='text', harness='h_text.cpp', tus=[], models=COMMON + ['m_text.c'], cxxdefs={'C03_STANZAS': 2},
-             instances=[
-                 I('step_complete_start', 'h_step_complete_start', cdefs=TD, bound=TB),
-                 I('step_complete_mid', 'h_step_complete_mid', cdefs=TD, bound=TB),
-                 I('step_partial_start', 'h_step_partial_start', cdefs=TD, bound=TB),
-                 I('step_partial_mid', 'h_step_partial_mid', cdefs=TD, bound=TB),
-             ]),
+        bytes_group('bytes', 4, ('quick', 'thorough')),
+        bytes_group('bytes6', 6, ('thorough',)),
+        text_group('text', 2, 34, ('quick', 'thorough')),
+        text_group('text3', 3, 38, ('thorough',)),
         dict(name='restart', harness='h_restart.cpp', tus=[], models=COMMON + ['m_text.c', 'm_restart.c'],
              instances=[
-                 I('restart_encrypted', 'h_restart_encrypted', cdefs=TD, bound='arbitrary receiver state: buffered text, cached header <= 3 units, pending bytes <= 3'),
-                 I('restart_connected', 'h_restart_connected', cdefs=TD, bound='as restart_encrypted, direct TLS or not'),
+                 I('restart_encrypted', 'h_restart_encrypted', cdefs={'C03_MAXBYTES': 4, 'C03_TCAP': 34}, bound='arbitrary receiver state: buffered text / cached header <= 3 arbitrary units, pending bytes <= 3'),
+                 I('restart_connected', 'h_restart_connected', cdefs={'C03_MAXBYTES': 4, 'C03_TCAP': 34}, bound='as restart_encrypted; direct TLS or not'),
              ]),
     ],
-    bounds=[], assumptions=[], outside=[],
+    bounds=[
+        'byte layer: |B| <= 4 bytes (thorough: 6), 3 reads, any cut positions; 4 bytes = one character of maximal length, so a character split over 3 reads and neighbours before/after a split character are covered',
+        'text layer: ONE arbitrary read from an arbitrary receiver state that satisfies the invariant (inductive step => any number of reads, any partition); window of <= 2 stanzas (thorough: 3) plus optional xml declaration, header, whitespace, close tag',
+        'text is abstract: a piece (declaration / header / stanza / close tag) is a run of 2-3 atoms (private-use code units), the middle atom carries an 8-bit identity; cuts fall on every atom boundary (2 cut points inside each stanza/header/close, 1 inside the declaration)',
+        'model string capacity 34 (38) UTF-16 units, asserted',
+    ],
+    assumptions=[
+        'QString::fromUtf8 = spec-level RFC 3629 decoder with Qt 5.15 error behaviour (one U+FFFD per byte that does not start a well-formed complete sequence; a BOM at the start of ONE call is skipped); validated natively against libQt5Core on 21.4 million byte strings (all strings <= 3 bytes, structured 4-byte strings) by translation_validation',
+        'B contains no U+FEFF: Qt\'s stateless decoder drops a BOM at the start of every call, so a U+FEFF that happens to be the first character of a read would be lost (split-dependent, observation reported; instance utf8_feff demonstrates it when listed as known finding feff_at_read_start)',
+        'B contains no NUL byte (QString::fromUtf8(QByteArray) stops at the first NUL; NUL is not an XML character)',
+        'nothing follows the stream close tag (a valid stream ends there)',
+        'QRegularExpression: exactly the two pattern strings of processData are modelled over token text (pattern text is compared; a changed pattern makes the run inconclusive, not green)',
+        'QDomDocument::setContent over token text: well-formed <=> [decl] ws* header (ws|stanza)* (close | literal "</stream:stream>") ws* with every piece complete; a proper prefix of a piece is never well-formed (true for the XML the atoms stand for); the literal close tag is recognised as the last 16 units of the text only',
+        'the four signals of XmppSocket (moc-generated bodies) are replaced by a ghost event log (kind, element identity, namespace identity); stanzaReceived(null element) = keep-alive notification, not an event',
+        'pre-state of the inductive step: m_dataBuffer = the received-but-undelivered text T[0..k), m_streamOpenElement = header text captured earlier (or empty); unreachable states of that shape are included (over-approximation)',
+        'QObject::connectImpl records the functor slot object; the harness invokes it through the real QSlotObjectBase::call',
+    ],
+    outside=[
+        'real XML tokenisation and the regex engine: ">" inside an attribute value of the header, CDATA/comments/PIs, "</stream:stream>" inside character data, xml declaration spanning several "?>"',
+        'U+FEFF at the start of a read (see assumptions) and NUL bytes',
+        'invalid UTF-8 input (replacement characters are not required to be split-independent)',
+        'whitespace or anything else after the stream close tag; several stream headers inside one stream without restart',
+        'the QSslSocket/QIODevice side: that readyRead is emitted for every arrival and readAll returns all pending bytes (Qt)',
+        'dispatch of the events inside QXmppOutgoingClient/QXmppStream (other properties)',
+    ],
 )
+
+def translation_validation(ctx):
+    """the UTF-8 decoder model (c03_utf8.h, the same source the cbmc model includes) against the real QString::fromUtf8"""
+    d = os.path.dirname(os.path.abspath(__file__)); exe = os.path.join(ctx['work'], 'tv_utf8')
+    inc = ['-I/usr/include/x86_64-linux-gnu/qt5', '-I/usr/include/x86_64-linux-gnu/qt5/QtCore']
+    r = ctx['run'](['g++', '-O2', '-std=c++17', '-fPIC'] + inc + ['-I' + d, os.path.join(d, 'tv_utf8.cpp'), '-o', exe, '-lQt5Core'])
+    if r.returncode != 0: return dict(ok=False, n=0, detail='validator build failed: ' + r.stderr[-500:])
+    r = ctx['run']([exe], timeout=120)
+    out = (r.stdout or '').strip().split()
+    if r.returncode == 0 and len(out) == 2 and out[0] == 'OK':
+        return dict(ok=True, n=int(out[1]), detail='UTF-8 decoder model == QString::fromUtf8 (libQt5Core) on %s byte strings: all strings <= 3 bytes without NUL, structured 4-byte strings, all well-formed 4-byte sequences' % out[1])
+    return dict(ok=False, n=0, detail='decoder model disagrees with QString::fromUtf8: ' + (r.stderr or '')[-400:])
